@@ -381,4 +381,197 @@ theorem daLoop2_rem (d0 d1 dinv : Nat) (hd0 : d0 < B) (hd1 : d1 < B) (hnorm : B 
           rw [e', div_of_split _ _ _ hc']
         rw [eVd, e1, i1]; ring
 
+/-- mpn_sb_divappr_q after the cut of the divisor, no iteration of the first loop, window below B·divisor (qh = 0):
+    the quotient limbs, the three limbs left and both halves of the contract relative to the limbs really used -/
+theorem daCore_rem (nlow hi dlo : List Nat) (x d0 d1 dinv : Nat) (hhi : hi.length = dlo.length + 2)
+    (hhil : Limbs hi) (hx : x < B) (hdlo : Limbs dlo) (hd0 : d0 < B) (hd1 : d1 < B)
+    (hnorm : B / 2 ≤ d1) (hdinv : dinv = invert_pi1 d1 d0) (hk : dlo.length + 4 ≤ B)
+    (hlt : val hi < val dlo + B ^ dlo.length * (d0 + B * d1)) :
+    ∃ q r3, daCore (nlow ++ x :: hi) (dlo ++ [d0, d1]) (dlo.length + 1) dinv = (q, r3, 0) ∧
+      q.length = dlo.length + 1 ∧ Limbs q ∧ r3.length = 3 ∧ Limbs r3 ∧
+      x + B * val hi = tS (val dlo + B ^ dlo.length * (d0 + B * d1)) (val q) (dlo.length + 1) + val r3 ∧
+      B ^ dlo.length * (x + B * val hi + 1) ≤ (val q + 1) * (val dlo + B ^ dlo.length * (d0 + B * d1)) := by
+  have hB := B_pos
+  have hd : Limbs (dlo ++ [d0, d1]) := Limbs_append.mpr ⟨hdlo, Limbs_pair hd0 hd1⟩
+  have hdl : (dlo ++ [d0, d1]).length = dlo.length + 2 := by simp
+  have eV : val (dlo ++ [d0, d1]) = val dlo + B ^ dlo.length * (d0 + B * d1) := val_top2 _ _ _
+  obtain ⟨qh, hi', e1, e2, hqh, hv, hlt', hl', hll'⟩ :=
+    sb_init hi (dlo ++ [d0, d1]) hhil hd (by rw [hdl]; exact hhi) (by rw [hdl]; exact norm_pow dlo d0 d1 hnorm)
+  rw [eV] at hv hlt'
+  have hq0 : qh = 0 := by
+    rcases Nat.eq_zero_or_pos qh with h | h
+    · exact h
+    · have : qh = 1 := by omega
+      subst this; omega
+  subst hq0
+  have ehi : hi' = hi := by rw [← e2]; simp
+  subst ehi
+  have hcore := daCore_eq nlow [] hi' dlo x d0 d1 dinv hhi
+  simp only [List.nil_append, List.length_nil, Nat.zero_add, List.reverse_nil, daLoop1] at hcore
+  rw [hcore]
+  simp only [e1, ne_eq, not_true_eq_false, if_false]
+  have hsp := split_top2_val hi' dlo.length hhi
+  have hW : val (x :: hi'.take dlo.length) + B ^ (dlo.length + 1) * (hi'.getD dlo.length 0 + B * hi'.getD (dlo.length + 1) 0)
+      = x + B * val hi' := by
+    rw [val_cons, pow_succ, ← hsp]; ring
+  have hWlt : val (x :: hi'.take dlo.length) + B ^ (dlo.length + 1) * (hi'.getD dlo.length 0 + B * hi'.getD (dlo.length + 1) 0)
+      < 0 + B * (val dlo + B ^ dlo.length * (d0 + B * d1)) := by
+    rw [hW, Nat.zero_add]
+    have : B * (val hi' + 1) ≤ B * (val dlo + B ^ dlo.length * (d0 + B * d1)) := Nat.mul_le_mul_left _ hlt
+    linarith
+  have hml : (x :: hi'.take dlo.length).length = dlo.length + 1 := by simp [hhi]
+  have hmL : Limbs (x :: hi'.take dlo.length) := Limbs_cons.mpr ⟨hx, Limbs_take hhil _⟩
+  obtain ⟨ql, r3, el, hqll, hql, hr3l, hr3, i1⟩ :=
+    daLoop2_rem d0 d1 dinv hd0 hd1 hnorm hdinv dlo.length dlo (x :: hi'.take dlo.length) (hi'.getD (dlo.length + 1) 0)
+      (hi'.getD dlo.length 0) 0 [] rfl hml hdlo hmL (limb_getD hhil _) (limb_getD hhil _) hB hk hWlt
+  obtain ⟨ql', r3', el', _, _, j1, _⟩ :=
+    daLoop2_spec d0 d1 dinv hd0 hd1 hnorm hdinv dlo.length dlo (x :: hi'.take dlo.length) (hi'.getD (dlo.length + 1) 0)
+      (hi'.getD dlo.length 0) 0 [] rfl hml hdlo hmL (limb_getD hhil _) (limb_getD hhil _) hB hWlt
+  rw [el] at el'
+  have eql : ql = ql' := by
+    have := congrArg Prod.fst el'
+    simpa using this
+  subst eql
+  rw [el]
+  refine ⟨ql, r3, by simp, hqll, hql, hr3l, hr3, ?_, ?_⟩
+  · rw [← hW]; exact i1
+  · rw [hW, Nat.zero_add] at j1
+    apply Nat.le_of_mul_le_mul_left _ hB
+    calc B * (B ^ dlo.length * (x + B * val hi' + 1)) = B ^ (dlo.length + 1) * (x + B * val hi' + 1) := by
+          rw [pow_succ]; ring
+      _ ≤ (val ql + 1) * (B * (val dlo + B ^ dlo.length * (d0 + B * d1))) := j1
+      _ = B * ((val ql + 1) * (val dlo + B ^ dlo.length * (d0 + B * d1))) := by ring
+
+theorem toLimbs_spec' : ∀ (k v : Nat), val (toLimbs k v) = v % B ^ k ∧ (toLimbs k v).length = k ∧ Limbs (toLimbs k v)
+  | 0, v => by simp [toLimbs, Nat.mod_one, Limbs_nil]
+  | k + 1, v => by
+    obtain ⟨ih1, ih2, ih3⟩ := toLimbs_spec' k (v / B)
+    have hB := B_pos
+    refine ⟨?_, by simp [toLimbs, ih2], ?_⟩
+    · simp only [toLimbs, val_cons, ih1]
+      rw [Nat.pow_succ, Nat.mul_comm (B ^ k) B, Nat.mod_mul]
+    · simp only [toLimbs]
+      exact Limbs_cons.mpr ⟨Nat.mod_lt _ hB, ih3⟩
+
+theorem val_drop (l : List Nat) (hl : Limbs l) (j : Nat) (hj : j ≤ l.length) : val (l.drop j) = val l / B ^ j := by
+  have h := val_take_drop l j hj
+  have hlt := val_lt (l.take j) (Limbs_take hl _)
+  rw [List.length_take, Nat.min_eq_left hj] at hlt
+  rw [h]
+  have e : val (l.take j) + B ^ j * val (l.drop j) = val (l.drop j) * B ^ j + val (l.take j) := by ring
+  rw [e, div_of_split _ _ _ hlt]
+
+theorem div_succ_split (N j : Nat) : N / B ^ j = N / B ^ j % B + B * (N / B ^ (j + 1)) := by
+  rw [← div_pow_succ' N j]
+  have := Nat.div_add_mod (N / B ^ j) B
+  omega
+
+theorem floor_side (Wc P Q Dc : Nat) (hP : 0 < P) (h : P * (Wc / P + 1) ≤ (Q + 1) * Dc) : Wc < (Q + 1) * Dc := by
+  have h1 := Nat.div_add_mod Wc P
+  have h2 := Nat.mod_lt Wc hP
+  nlinarith
+
+/-- LEAF SPECIFICATION.  mpn_sb_divappr_q (qp, np, dn + m, dp, dn, dinv) with m + 1 < dn (the divisor is cut to its m + 1 top
+    limbs, s = dn - (m + 1) limbs of divisor and dividend are ignored) on a window whose top m + 1 limbs are below the
+    cut divisor: the m quotient limbs Q and the three limbs r3 it leaves satisfy, with Wc = ⌊N/B^s⌋ (2m + 1 limbs) and
+    Dc = ⌊D/B^s⌋:  Wc < (Q + 1)·Dc  and  ⌊Wc/B^(m-1)⌋ = tS Dc Q m + r3. -/
+theorem sbLeaf_spec (m dn N D : Nat) (hm : 1 ≤ m) (hcut : m + 1 < dn) (hN : N < B ^ (dn + m)) (hD : D < B ^ dn)
+    (hnorm : B ^ dn ≤ 2 * D) (hsize : 2 * dn + 2 ≤ B)
+    (hpre : N / B ^ (dn - (m + 1)) / B ^ m < D / B ^ (dn - (m + 1))) :
+    (sbLeaf (dn + m) dn N D).ok = true ∧ (sbLeaf (dn + m) dn N D).q < B ^ m ∧ (sbLeaf (dn + m) dn N D).wl = 0 ∧
+    N / B ^ (dn - (m + 1)) < ((sbLeaf (dn + m) dn N D).q + 1) * (D / B ^ (dn - (m + 1))) ∧
+    N / B ^ (dn - (m + 1)) / B ^ (m - 1)
+      = tS (D / B ^ (dn - (m + 1))) (sbLeaf (dn + m) dn N D).q m + (sbLeaf (dn + m) dn N D).r3 := by
+  have hB := B_pos
+  obtain ⟨k, rfl⟩ : ∃ k, m = k + 1 := ⟨m - 1, by omega⟩
+  obtain ⟨s, hs⟩ : ∃ s, dn = s + (k + 1 + 1) := ⟨dn - (k + 1 + 1), by omega⟩
+  have es : dn - (k + 1 + 1) = s := by omega
+  rw [es] at hpre ⊢
+  obtain ⟨nv, nl, nL⟩ := toLimbs_spec' (dn + (k + 1)) N
+  obtain ⟨dv, dl, dL⟩ := toLimbs_spec' dn D
+  rw [Nat.mod_eq_of_lt hN] at nv
+  rw [Nat.mod_eq_of_lt hD] at dv
+  -- the model call
+  have ecall : sbLeaf (dn + (k + 1)) dn N D =
+      { q := val (sb_divappr_q (toLimbs (dn + (k + 1)) N) (toLimbs dn D)
+                (invert_pi1 ((toLimbs dn D).getD (dn - 1) 0) ((toLimbs dn D).getD (dn - 2) 0))).1,
+        qh := (sb_divappr_q (toLimbs (dn + (k + 1)) N) (toLimbs dn D)
+                (invert_pi1 ((toLimbs dn D).getD (dn - 1) 0) ((toLimbs dn D).getD (dn - 2) 0))).2.2,
+        r3 := val (sb_divappr_q (toLimbs (dn + (k + 1)) N) (toLimbs dn D)
+                (invert_pi1 ((toLimbs dn D).getD (dn - 1) 0) ((toLimbs dn D).getD (dn - 2) 0))).2.1,
+        ok := decide (2 < dn) && decide (dn < dn + (k + 1)) && decide (B ^ dn / 2 ≤ D) && decide (D < B ^ dn) } := rfl
+  have hok : (decide (2 < dn) && decide (dn < dn + (k + 1)) && decide (B ^ dn / 2 ≤ D) && decide (D < B ^ dn)) = true := by
+    have : B ^ dn / 2 ≤ D := by omega
+    simp [this, hD]; omega
+  generalize hn : toLimbs (dn + (k + 1)) N = n at *
+  generalize hd : toLimbs dn D = d at *
+  -- the cut divisor
+  have hdpl : (d.drop s).length = k + 2 := by rw [List.length_drop, dl]; omega
+  have hdsplit := split_top2 (d.drop s) k hdpl
+  have hdlo : Limbs ((d.drop s).take k) := Limbs_take (Limbs_drop dL _) _
+  have hdlol : ((d.drop s).take k).length = k := by rw [List.length_take, hdpl]; omega
+  have e_d0 : (d.drop s).getD k 0 = d.getD (dn - 2) 0 := by rw [getD_drop]; congr 1; omega
+  have e_d1 : (d.drop s).getD (k + 1) 0 = d.getD (dn - 1) 0 := by rw [getD_drop]; congr 1; omega
+  have hd0 := limb_getD dL (dn - 2)
+  have hd1 := limb_getD dL (dn - 1)
+  have hVd : val (d.drop s) = D / B ^ s := by rw [val_drop d dL s (by omega), dv]
+  rw [e_d0, e_d1] at hdsplit
+  -- normalisation of the top limb
+  have hnormL : B / 2 ≤ d.getD (dn - 1) 0 := by
+    have h1 := val_div_mod (dn - 1) d dL
+    rw [dv] at h1
+    have hlt : D / B ^ (dn - 1) < B := by
+      rw [Nat.div_lt_iff_lt_mul (Bpow_pos _), ← pow_succ']
+      have : dn - 1 + 1 = dn := by omega
+      rw [this]; exact hD
+    rw [Nat.mod_eq_of_lt hlt] at h1
+    rw [← h1, Nat.le_div_iff_mul_le (Bpow_pos _)]
+    have e : B ^ dn = B ^ (dn - 1) * B := by rw [← pow_succ]; congr 1; omega
+    have e2 : B = B / 2 * 2 := by rw [B_eq]
+    rw [e] at hnorm
+    have : B ^ (dn - 1) * (B / 2 * 2) ≤ 2 * D := by rw [← e2]; exact hnorm
+    nlinarith
+  generalize d.getD (dn - 2) 0 = d0 at *
+  generalize d.getD (dn - 1) 0 = d1 at *
+  generalize (d.drop s).take k = dlo at *
+  -- the dividend
+  have hf : s + k < n.length := by omega
+  have hnsplit := split_dividend n (s + k) 0 hf
+  simp only [List.take_zero, List.nil_append, Nat.add_zero] at hnsplit
+  have hx := limb_getD nL (s + k)
+  have hhil : Limbs (n.drop (s + k + 1)) := Limbs_drop nL _
+  have hhill : (n.drop (s + k + 1)).length = dlo.length + 2 := by rw [List.length_drop, nl, hdlol]; omega
+  have hxv : n.getD (s + k) 0 = N / B ^ (s + k) % B := by rw [← val_div_mod _ n nL, nv]
+  have hhiv : val (n.drop (s + k + 1)) = N / B ^ (s + k + 1) := by rw [val_drop n nL _ (by omega), nv]
+  have hVd' : val dlo + B ^ dlo.length * (d0 + B * d1) = D / B ^ s := by
+    rw [← hVd, hdsplit, val_top2]
+  have hpre' : val (n.drop (s + k + 1)) < val dlo + B ^ dlo.length * (d0 + B * d1) := by
+    rw [hhiv, hVd', show s + k + 1 = s + (k + 1) from rfl, ← div_pow_add]; exact hpre
+  obtain ⟨q, r3, ec, hql, hqL, hr3l, hr3L, c1, c2⟩ :=
+    daCore_rem (n.take (s + k)) (n.drop (s + k + 1)) dlo (n.getD (s + k) 0) d0 d1 (invert_pi1 d1 d0)
+      hhill hhil hx hdlo hd0 hd1 hnormL rfl (by rw [hdlol]; omega) hpre'
+  have ecore : sb_divappr_q n d (invert_pi1 d1 d0) = (q, r3, 0) := by
+    unfold sb_divappr_q
+    simp only []
+    have e1 : n.length - d.length = dlo.length + 1 := by rw [nl, dl, hdlol]; omega
+    have e2 : (if dlo.length + 1 + 1 < d.length then d.drop (d.length - (dlo.length + 1 + 1)) else d) = dlo ++ [d0, d1] := by
+      rw [if_pos (by rw [dl, hdlol]; omega)]
+      have : d.length - (dlo.length + 1 + 1) = s := by rw [dl, hdlol]; omega
+      rw [this]; exact hdsplit
+    rw [e1, e2]
+    conv_lhs => rw [hnsplit]
+    exact ec
+  rw [ecall, ecore]
+  simp only []
+  have hQlt := val_lt q hqL
+  rw [hql, hdlol] at hQlt
+  have hW : N / B ^ s / B ^ (k + 1 - 1) = n.getD (s + k) 0 + B * val (n.drop (s + k + 1)) := by
+    rw [Nat.add_sub_cancel, div_pow_add, hxv, hhiv]; exact div_succ_split N (s + k)
+  rw [hVd', hdlol] at c1 c2
+  refine ⟨hok, hQlt, trivial, ?_, ?_⟩
+  · rw [Nat.add_sub_cancel] at hW
+    rw [← hW] at c2
+    exact floor_side _ _ _ _ (Bpow_pos k) c2
+  · rw [hW]; exact c1
+
 end Mpir.SbDivQ
